@@ -9,10 +9,32 @@ base_cmd = json.load(open("/root/.vp/BASELINE.json"))["cmd"] if os.path.exists("
 old = json.load(open(os.path.join(ROOT, "MANIFEST.json")))
 props = [json.loads(l)["id"] for l in open(os.path.join(ROOT, "properties.jsonl"))]
 checks, na, served = [], [], []
+CLAIMED = [l.strip() for l in open(os.path.join(ROOT, "theorems", "CLAIMED")) if l.strip() and not l.startswith("#")]
+
+
+def default_manifest(pid, spec):
+    th = spec["theorems"]
+    kinds = {}
+    for t in th:
+        kinds[t.get("kind", "full")] = kinds.get(t.get("kind", "full"), 0) + 1
+    fulls = [t.get("gloss", t["name"].split(".")[-1]) for t in th if t.get("kind", "full") == "full"][:7]
+    text = (f"Machine-checked proof in Lean 4 ({len(th)} theorems: " + ", ".join(f"{v} {k}" for k, v in sorted(kinds.items())) + "; the gen-obligations are re-proved against "
+            "/repo's current source on every run). Proved for all inputs/histories the statements quantify over: " + "; ".join(fulls)[:1500] + ". "
+            + ("Partial / not claimed: " + " | ".join(spec.get("partial", []))[:1200] + ". " if spec.get("partial") else "")
+            + f"The model is tied to the code by tools/gen.py (units {', '.join(spec.get('gen_units', [])) or '-'}) and by the correspondence harness tools/harness/{pid.lower()}.py, which runs the real classes and "
+            "the Lean model driver on the same cases and evaluates the property's own statement on the implementation (direct oracle); a broken proof/tie triggers a failing-input search.")
+    note = ("Trusted: Lean 4.33 kernel (axioms propext, Classical.choice, Quot.sound only; no sorry/native_decide); tools/gen.py + plugins (translation/extraction); "
+            "hand-modelled, validated by differential execution not verified: " + "; ".join(spec.get("hand_modelled", []))[:900]
+            + ". Assumptions: " + "; ".join(spec.get("assumptions", []))[:900])
+    return {"text": text, "note": note, "technique": "Lean 4 theorems (induction / invariants / decide over generated tables) over generated + hand models, tied by translation and a correspondence harness"}
+
+
 for pid in props:
     f = os.path.join(ROOT, "theorems", f"{pid}.json")
     spec = json.load(open(f)) if os.path.exists(f) else None
-    if spec is None or not spec.get("claimed", True) or "manifest" not in spec:
+    if spec is not None and pid in CLAIMED and "manifest" not in spec:
+        spec["manifest"] = default_manifest(pid, spec)
+    if spec is None or pid not in CLAIMED:
         reason = (spec or {}).get("na_reason", "check not built yet in this round (model, theorems and correspondence harness pending); not a statement that the technique cannot apply")
         na.append({"property_id": pid, "reason": reason})
         continue
